@@ -4257,7 +4257,7 @@ ZSTD_compressBlock_splitBlock_internal(ZSTD_CCtx* zc,
     U32* const partitions = zc->blockSplitCtx.partitions; /* size == ZSTD_MAX_NB_BLOCK_SPLITS */
     seqStore_t* const nextSeqStore = &zc->blockSplitCtx.nextSeqStore;
     seqStore_t* const currSeqStore = &zc->blockSplitCtx.currSeqStore;
-    size_t const numSplits = ZSTD_deriveBlockSplits(zc, partitions, nbSeq);
+    size_t numSplits = ZSTD_deriveBlockSplits(zc, partitions, nbSeq);
 
     /* If a block is split and some partitions are emitted as RLE/uncompressed, then repcode history
      * may become invalid. In order to reconcile potentially invalid repcodes, we keep track of two
@@ -4275,6 +4275,8 @@ ZSTD_compressBlock_splitBlock_internal(ZSTD_CCtx* zc,
      */
     repcodes_t dRep;
     repcodes_t cRep;
+    /* every partition may end up uncompressed (+3 bytes each) : ZSTD_compressBound() grants 3 bytes per full KB only */
+    if (numSplits + 1 > MAX((size_t)1, blockSize >> 10)) numSplits = 0;
     ZSTD_memcpy(dRep.rep, zc->blockState.prevCBlock->rep, sizeof(repcodes_t));
     ZSTD_memcpy(cRep.rep, zc->blockState.prevCBlock->rep, sizeof(repcodes_t));
     ZSTD_memset(nextSeqStore, 0, sizeof(seqStore_t));
